@@ -66,6 +66,9 @@ func genScanCases(prop, tier string, rng *rand.Rand) []genCase {
 	} else if f, ok := directed[prop]; ok {
 		cases = append(cases, f()...)
 	}
+	if prop == "SCAN" || prop == "C20" {
+		cases = append(cases, c.dirRare()...)
+	}
 	cases = append(cases, c.histories(prop, nHist)...)
 	for i := 0; i < nRandom; i++ {
 		cfg := worldCfg{Fail: 1, Big: i%10 == 0, Malformed: i%4 == 0 || prop == "C20", Fleet: prop == "SCAN" && i%70 == 5}
